@@ -526,7 +526,7 @@ def BASE_PRED(it, pre, m, dag, n, x):
 class M_get_predecessors(MgrContract):
     name = 'DAGRunConcurrentManager._get_predecessors'
     returns = 'list'
-    props = ('C03', 'C09', 'C10', 'C11')
+    props = ('C01', 'C03', 'C09', 'C10', 'C11')
     doc = ('{sub(p) | p in base}: base = dag-restricted dependencies for switch / one-of head / recurrent scope, '
            'else all graph predecessors; sub = selected case of a resolved switch')
 
@@ -582,7 +582,7 @@ def READY(m, p):
 class M_is_ready_to_execute(MgrContract):
     name = 'DAGRunConcurrentManager._is_ready_to_execute'
     returns = 'bool'
-    props = ('C03', 'C06', 'C09', 'C10', 'C11')
+    props = ('C01', 'C03', 'C06', 'C09', 'C10', 'C11')
     doc = 'ready ⇔ every effective predecessor has a visible, non-Recurrent result'
 
     def setup(self, it):
